@@ -27,6 +27,31 @@ resolved in favour of the code under test, i.e. the oracle uses two-sided bounds
    so no independent rounding rule exists); it is the only formula shared with the code.
  * a call that raises on an input inside the quantifier is reported (the matched set is not
    delivered), under its own finding key.
+ * the threshold is compared without tolerance whenever it is known exactly: the two order statistics
+   the 1 % quantile interpolates between are equal and signal_beta * that value is a float32 number
+   (all generated signals are integers, so every summed signal is exact).  A tile whose summed signal
+   EQUALS the threshold is then eligible ("not above") and must be available to the matching.
+ * how the arguments are handed over does not change the property: loci as a DataFrame (plain,
+   with further bed columns after the first three, with a non-default index) or as the path of a
+   header-less tab-separated bed file; chroms as list / tuple / numpy array in any order;
+   random_state as an int or as a freshly seeded numpy RandomState.  Exact duplicates among the input
+   loci count as separate input loci (the statement counts loci, not distinct intervals).
+
+POSSIBLE DEFECT (both readings below are kept behind flags that are False; with the flags False the
+oracle stays two-sided and the unchanged tree passes)
+ 1. STRICT_END_EXCLUSIVE_MASK: bed intervals are end-exclusive, so a locus chr1:50-100 with
+    in_window=50 touches tile 1 only.  extract_matching_loci masks locus.start // W .. locus.end // W
+    inclusive, i.e. also tile 2 (100-150).  Input: genome = 4 tiles of 50 bp, 20 % GC, no N;
+    loci = 3 x (chr1, 50, 100); in_window = out_window = 50, gc_bin_width 0.02, max_n_perc 0.1, no
+    bigwig: three usable inputs, three untouched eligible tiles (0, 2, 3) of the same GC bin, but
+    only tiles 0 and 3 are returned -> one input stays unmatched although eligible background is
+    left (directed case 'mask-end-exclusive'; fires as unmatched-while-background-left when the
+    flag is True).
+ 2. STRICT_USABLE_LE: background tiles are kept with N fraction <= max_n_perc, input loci only with
+    N fraction < max_n_perc (the doc-string says loci with a HIGHER N fraction are dropped).  Input:
+    directed case 'max-n-0.0' (N-free locus chr1:60-80, max_n_perc = 0): the input is dropped and
+    nothing is returned although 4 eligible N-free tiles of its GC bin exist (fires as
+    bin-underfilled when the flag is True).
 """
 import math
 import os
@@ -38,13 +63,24 @@ import pandas
 
 SCOPE = {
     'quick': 'directed explicit genomes (GC bin 0 spill, in_window == out_window with bigWig, 100 %-GC tiles with bin widths whose '
-             'reciprocal has fractional part >= .5, N == max_n_perc, masks) + ~400 seeded random genomes: 1-3 chromosomes, 20-400 tiles, '
+             'reciprocal has fractional part >= .5, N == max_n_perc, masks; boundary cases in which the ONLY eligible background has N fraction == '
+             'max_n_perc (W 50..500) or summed signal == signal_beta * robust minimum (out_window 1/30/31/50), input windows flush with both '
+             'chromosome ends (even/odd W, partial last tile, bigWig), exact duplicate loci, end-exclusive loci on a tile boundary, a chromosome '
+             'shorter than one tile, 7 chromosomes in non-sorted order; loci as bed / bed6 file path, bed6 frame, int- and str-indexed frame, '
+             'random_state as RandomState object, chroms reversed / tuple / array) + ~150 seeded random VARIANT genomes (same generator as below plus: '
+             'loci as file path / extra bed columns / non-default index, RandomState objects, chroms shuffled and subset as list/tuple/array, '
+             '0-60 % exact duplicate loci, 0-30 % windows flush with the chromosome ends, 30-90 % of the tiles rewritten to N fraction == max_n_perc, '
+             'zero background signal so that the threshold is known exactly and compared without tolerance) '
+             '+ ~400 seeded random genomes: 1-3 chromosomes, 20-400 tiles, '
              'in_window in {50..500}, out_window <= in_window, GC blocks 0-100 % not aligned to tiles, N runs and sprinkled N, lower case, '
              '5-200 loci (uniform and clustered, some invalid / N-rich), bin widths 0.01-0.1, max_n_perc 0-0.5, with/without bigWig '
-             '(integer signal, gaps), chroms None / explicit; all clauses at n_jobs=1 (called twice: determinism), then 8 cases each at '
-             'n_jobs 2, 3, 4 compared with n_jobs=1',
-    'thorough': 'same generators, up to 10000 random genomes (time-capped), 40 cases per n_jobs value 2, 3, 4',
+             '(integer signal, gaps), chroms None / explicit; all clauses at n_jobs=1 (called twice: determinism), then 9 cases each at '
+             'n_jobs 2, 3, 4 compared with n_jobs=1 (one 7-chromosome directed case, 3 variant cases, 5 plain random cases)',
+    'thorough': 'same generators, up to 2500 variant (at most a quarter of the time) and 10000 random genomes (time-capped), 41 cases per n_jobs value 2, 3, 4',
 }
+
+STRICT_END_EXCLUSIVE_MASK = False     # see POSSIBLE DEFECT 1 above
+STRICT_USABLE_LE = False              # see POSSIBLE DEFECT 2 above
 
 CHROMS = ['chrA', 'chrB', 'chrC']
 WIDTHS = [0.01, 0.02, 0.025, 0.03, 0.04, 0.05, 0.06, 0.07, 0.08, 0.1]
@@ -84,11 +120,24 @@ def _build(case):
             s = s[:st] + 'N' * len(s[st:st + ln]) + s[st + ln:]
         genome[name] = s
         lengths[name] = len(s)
+    # tiles rewritten to carry exactly round(max_n_perc * W) N (N fraction == max_n_perc: still eligible)
+    k = int(round(case['max_n'] * W))
+    for name, t in case.get('n_exact', []):
+        s = genome[name]
+        if (t + 1) * W <= len(s):
+            tile = s[t * W:(t + 1) * W].replace('N', 'A').replace('n', 'a')
+            genome[name] = s[:t * W] + tile[:W - k] + 'N' * k + s[(t + 1) * W:]
     # loci
     spec = case['loci_spec']
     loci = []
     names = [g[0] for g in case['genome']]
     for k in range(spec['n']):
+        if spec.get('p_flush') and rs.random_sample() < spec['p_flush']:
+            # window flush with the first / last base of the chromosome (still a valid, usable locus)
+            c = names[rs.randint(len(names))]
+            st = 0 if rs.random_sample() < 0.5 else lengths[c] - W
+            loci.append((c, int(st), int(st + W)))
+            continue
         if spec['hot'] and rs.random_sample() < spec['frac_hot']:
             c, centre, spread = spec['hot'][rs.randint(len(spec['hot']))]
             mid = int(centre + rs.randint(-spread, spread + 1))
@@ -104,6 +153,10 @@ def _build(case):
         else:
             st = mid - width // 2
             loci.append((c, int(st), int(st + width)))
+    if spec.get('p_dup'):                                  # exact duplicates of earlier loci
+        for k in range(1, len(loci)):
+            if rs.random_sample() < spec['p_dup']:
+                loci[k] = loci[int(rs.randint(k))]
     signal = None
     if case['bigwig']:
         signal = {}
@@ -198,11 +251,18 @@ def _oracle(case, genome, signal, loci):
             L_lo[k] = L_lo.get(k, 0) + 1
         if nf <= max_n:
             L_hi[k] = L_hi.get(k, 0) + 1
+    if STRICT_USABLE_LE:
+        L_lo = dict(L_hi)
     o['L_lo'], o['L_hi'], o['n_valid'] = L_lo, L_hi, len(counts)
-    thr = None
+    thr, exact = None, False
     if signal is not None:
         thr = case['beta'] * _quantile01(counts) if counts else float('nan')
-    o['thr'] = thr
+        if counts:
+            xs = sorted(counts)
+            lo = int(math.floor(0.01 * (len(xs) - 1)))
+            # both neighbours of the 1 % position equal -> every interpolation formula returns that value
+            exact = xs[lo] == xs[min(lo + 1, len(xs) - 1)] and float(numpy.float32(thr)) == thr
+    o['thr'], o['thr_exact'] = thr, exact
     # tiles
     touched, generous = {c: set() for c in genome}, {c: set() for c in genome}
     for c, s, e in loci:
@@ -221,11 +281,11 @@ def _oracle(case, genome, signal, loci):
                 s1 = _sum(signal[c], t * W + left, (t + 1) * W - right)
                 s2 = _sum(signal[c], mid - out // 2, mid + (out + 1) // 2)
                 d['sig'] = (s1, s2)
-                tol = 1e-9 * (1 + abs(thr))
+                tol = 0.0 if exact else 1e-9 * (1 + abs(thr))
                 d['sig_hi'] = min(s1, s2) <= thr + tol       # acceptable under some reading
                 d['sig_lo'] = max(s1, s2) <= thr - tol       # eligible under every reading
             d['E_hi'] = d['n_ok'] and d['sig_hi'] and not d['touched']
-            d['E_lo'] = d['n_ok'] and d['sig_lo'] and not d['generous']
+            d['E_lo'] = d['n_ok'] and d['sig_lo'] and not (d['touched'] if STRICT_END_EXCLUSIVE_MASK else d['generous'])
             info[(c, t)] = d
     o['info'] = info
     o['max_bin'] = max([d['bin'] for d in info.values()] + list(L_hi) + [0])
@@ -234,12 +294,32 @@ def _oracle(case, genome, signal, loci):
 
 def _call(case, fa, bw, loci, n_jobs):
     from tangermeme.match import extract_matching_loci
+    call = case.get('call') or {}
     df = pandas.DataFrame({'chrom': [l[0] for l in loci], 'start': [l[1] for l in loci], 'end': [l[2] for l in loci]})
+    if call.get('extra_cols'):             # bed6: name, score, strand after the three coordinates
+        df['name'] = ['peak%d' % i for i in range(len(df))]
+        df['score'] = [(37 * i) % 1000 for i in range(len(df))]
+        df['strand'] = ['+-'[i % 2] for i in range(len(df))]
+    if call.get('index'):                  # labels that are neither 0..n-1 nor sorted
+        df.index = ['r%d' % (len(df) - i) for i in range(len(df))] if call['index'] == 'str' else \
+                   [3 * (len(df) - i) + 100 for i in range(len(df))]
+    loci_arg = df
+    if call.get('as_path'):                # header-less tab-separated bed file
+        loci_arg = os.path.join(os.path.dirname(fa), 'loci.bed')
+        df.to_csv(loci_arg, sep='\t', header=False, index=False)
+    chroms = case.get('chroms')
+    if chroms is not None and call.get('chroms_as') == 'tuple':
+        chroms = tuple(chroms)
+    elif chroms is not None and call.get('chroms_as') == 'array':
+        chroms = numpy.array(chroms)
+    rs = case['random_state']
+    if call.get('rs_obj'):
+        rs = numpy.random.RandomState(rs)
     kw = dict(in_window=case['W'], out_window=case['out'], max_n_perc=case['max_n'], gc_bin_width=case['gcw'],
-              chroms=case.get('chroms'), random_state=case['random_state'], n_jobs=n_jobs, verbose=False)
+              chroms=chroms, random_state=rs, n_jobs=n_jobs, verbose=False)
     if bw is not None:
         kw.update(bigwig=bw, signal_beta=case['beta'])
-    r = extract_matching_loci(df, fa, **kw)
+    r = extract_matching_loci(loci_arg, fa, **kw)
     return [(str(c), int(s), int(e)) for c, s, e in zip(r['chrom'], r['start'], r['end'])]
 
 
@@ -257,7 +337,9 @@ def _eval(case, parts=('clauses', 'njobs')):
     o = _oracle(case, genome, signal, loci)
     W = case['W']
     d = _tmpdir()
-    stats = {'returned': 0, 'usable': sum(o['L_lo'].values()), 'usable_hi': sum(o['L_hi'].values())}
+    stats = {'returned': 0, 'usable': sum(o['L_lo'].values()), 'usable_hi': sum(o['L_hi'].values()), 'exact_thr': bool(o['thr_exact']),
+             'at_thr': sum(1 for q in o['info'].values() if o['thr_exact'] and q['sig'] is not None and max(q['sig']) == o['thr'] and q['E_lo']),
+             'n_eq': sum(1 for (c, t), q in o['info'].items() if q['E_lo'] and _n_frac(genome[c][t * W:(t + 1) * W]) == case['max_n'])}
     if signal is not None and o['n_valid'] == 0:
         return out, stats          # no valid input locus: the robust minimum is undefined, nothing to assert
     try:
@@ -402,9 +484,74 @@ def _directed():
     cases.append(dict(base, name='masks', genome=g, loci=loci))
     cases.append(dict(base, name='masks-chroms-subset', genome=g, loci=loci, chroms=['chr1']))
     cases.append(dict(base, name='masks-chroms-other', genome=g, loci=loci[:4], chroms=['chr2']))
+    # ---- boundary values that decide eligibility / usability (each is the ONLY way to reach the lower bound) ----
+    # the only eligible background has N fraction exactly max_n_perc; the three inputs are N-free tiles 0..2
+    for W_, mn, k in ((50, 0.1, 5), (100, 0.25, 25), (64, 0.5, 32), (200, 0.05, 10), (500, 0.3, 150)):
+        gg = W_ // 10
+        g = [['chr1', [[gg, 0]] * 3 + [[gg, k]] * 4 + [[gg, k + 1]] * 3, 0]]
+        loci = [['chr1', t * W_ + W_ // 2 - 5, t * W_ + W_ // 2 + 5] for t in range(3)]
+        cases.append(dict(base, name='n-equal-max-needed-W%d' % W_, W=W_, out=W_, max_n=mn, genome=g, loci=loci))
+    # the only eligible background has summed signal exactly signal_beta * robust minimum (inputs 10/bp, tiles 4..6 5/bp, 7..9 6/bp)
+    g = [['chr1', [[10, 0]] * 14, 0]]
+    sig = [['chr1', [10] * 4 + [5] * 3 + [6] * 3 + [100] * 4]]
+    loci = [['chr1', t * W + 20, t * W + 30] for t in (1, 2, 3)]
+    for o_ in (50, 30, 31, 1):
+        cases.append(dict(base, name='signal-equal-threshold-out%d' % o_, out=o_, genome=g, signal=sig, loci=loci))
+    cases.append(dict(base, name='signal-equal-threshold-beta1', out=30, beta=1.0, genome=g, loci=loci,
+                      signal=[['chr1', [10] * 4 + [10] * 3 + [11] * 3 + [100] * 4]]))
+    # input windows flush with both ends of the chromosome are valid (with and without a partial last tile, even and odd W)
+    g = [['chr1', [[5, 0]] * 6, 0]]
+    cases.append(dict(base, name='windows-flush-with-ends', genome=g, loci=[['chr1', 0, 50], ['chr1', 250, 300], ['chr1', 20, 30]]))
+    g = [['chr1', [[5, 0]] * 6, 7]]
+    cases.append(dict(base, name='windows-flush-with-ends-odd', W=51, out=51, genome=g, loci=[['chr1', 0, 51], ['chr1', 262, 313], ['chr1', 25, 26]]))
+    cases.append(dict(base, name='windows-flush-with-ends-bigwig', out=20, genome=[['chr1', [[5, 0]] * 6, 0]], signal=[['chr1', [4, 1, 1, 1, 1, 4]]],
+                      loci=[['chr1', 0, 50], ['chr1', 250, 300], ['chr1', 20, 30]], beta=1.0))
+    # exact duplicates are separate input loci: 8 usable inputs, 8 eligible tiles
+    g = [['chr1', [[5, 0]] * 10, 0]]
+    cases.append(dict(base, name='duplicate-loci', genome=g, loci=[['chr1', 60, 80]] * 6 + [['chr1', 110, 120]] * 2))
+    # end-exclusive intervals (see POSSIBLE DEFECT 1; passes with the two-sided mask)
+    cases.append(dict(base, name='mask-end-exclusive', genome=[['chr1', [[10, 0]] * 4, 0]], loci=[['chr1', 50, 100]] * 3))
+    # a chromosome shorter than one tile (no tiles at all), with and without bigWig
+    g = [['chr1', [[5, 0]] * 8, 0], ['chrS', [], 30]]
+    loci = [['chr1', 60, 80], ['chr1', 210, 230], ['chrS', 5, 20]]
+    cases.append(dict(base, name='tiny-chromosome', genome=g, loci=loci))
+    cases.append(dict(base, name='tiny-chromosome-bigwig', out=30, genome=g, loci=loci, signal=[['chr1', [10, 10, 0, 0, 10, 0, 100, 0]], ['chrS', []]]))
+    # ---- the same inputs handed over in the other supported ways ----
+    g = [['chr1', [[10, 0]] * 12, 11], ['chr2', [[10, 0]] * 6, 0]]
+    loci = [['chr1', 100, 150], ['chr1', 240, 410], ['chr1', -5, 20], ['chr1', 590, 640], ['chr2', 60, 70], ['chr2', 149, 151]]
+    for nm, call in (('bed-file', dict(as_path=True)), ('bed6-file', dict(as_path=True, extra_cols=True)), ('bed6-frame', dict(extra_cols=True)),
+                     ('frame-int-index', dict(index='int')), ('frame-str-index', dict(index='str', extra_cols=True)),
+                     ('randomstate-object', dict(rs_obj=True))):
+        cases.append(dict(base, name='masks-' + nm, genome=g, loci=loci, call=call))
+    cases.append(dict(base, name='masks-chroms-reversed', genome=g, loci=loci, chroms=['chr2', 'chr1']))
+    cases.append(dict(base, name='masks-chroms-tuple', genome=g, loci=loci, chroms=['chr2', 'chr1'], call=dict(chroms_as='tuple')))
+    cases.append(dict(base, name='masks-chroms-array', genome=g, loci=loci, chroms=['chr2', 'chr1'], call=dict(chroms_as='array', as_path=True)))
+    cases.append(_many_chroms(False))
+    cases.append(_many_chroms(True))
     for c in cases:
         c.setdefault('n_jobs', [])
     return cases
+
+
+def _many_chroms(bigwig):
+    """seven chromosomes (more than any n_jobs used), names whose lexicographic order differs from the order in the FASTA,
+    a different GC level / tile count / mask on each; chroms handed over in FASTA order (not sorted)"""
+    W = 50
+    names = ['chr2', 'chr10', 'chr1', 'chrX', 'chr3', 'chrM', 'chr21']
+    genome, loci, sig = [], [], []
+    for i, nm in enumerate(names):
+        nt = 5 + i
+        tiles = [[(3 * i + 2 * t) % 26, 0] for t in range(nt)]
+        tiles[-1] = [tiles[-1][0], 6]                      # last tile: 12 % N > max_n_perc
+        genome.append([nm, tiles, i])
+        loci.append([nm, W * (i % 3) + 10, W * (i % 3) + 30])
+        loci.append([nm, W * 3 + 20, W * 3 + 40 + 10 * i])
+        sig.append([nm, [10 if t in (i % 3, 3, 4) else (100 if t == (i + 1) % nt else 0) for t in range(nt)]])
+    case = dict(kind='explicit', W=W, out=W, gcw=0.04, max_n=0.1, beta=0.5, random_state=11, chroms=list(names), signal=None,
+                name='many-chromosomes' + ('-bigwig' if bigwig else ''), genome=genome, loci=loci, n_jobs=[])
+    if bigwig:
+        case.update(signal=sig, out=30)
+    return case
 
 
 def _random_case(rng, profile, seed):
@@ -471,6 +618,41 @@ def _random_case(rng, profile, seed):
     return case
 
 
+def _vary(rng, case):
+    """turn a random case into a 'variant' case: other ways of handing the arguments over, chroms in any order, duplicated loci,
+    windows flush with the chromosome ends, tiles with N fraction == max_n_perc, zero-background signal (threshold known exactly)"""
+    W = case['W']
+    call = {}
+    if rng.random() < 0.35:
+        call['as_path'] = True
+    if rng.random() < 0.5:
+        call['extra_cols'] = True
+    if not call.get('as_path') and rng.random() < 0.5:
+        call['index'] = rng.choice(['int', 'str'])
+    if rng.random() < 0.3:
+        call['rs_obj'] = True
+    names = [g[0] for g in case['genome']]
+    if rng.random() < 0.5:
+        ch = names[:]
+        rng.shuffle(ch)
+        if rng.random() < 0.3:
+            ch = ch[:rng.randint(1, len(ch))]
+        case['chroms'] = ch
+        call['chroms_as'] = rng.choice(['list', 'tuple', 'array'])
+    spec = case['loci_spec']
+    spec['p_dup'] = rng.choice([0, 0.2, 0.6])
+    spec['p_flush'] = rng.choice([0, 0.1, 0.3])
+    k = case['max_n'] * W
+    if abs(k - round(k)) < 1e-9 and 0 < round(k) < W and round(k) / W == case['max_n'] and rng.random() < 0.8:
+        frac = rng.choice([0.3, 0.6, 0.9])
+        case['n_exact'] = [[g[0], t] for g in case['genome'] for t in range(sum(b[0] for b in g[1]) // W) if rng.random() < frac]
+    if case['bigwig'] and rng.random() < 0.6:
+        case['signal_spec']['lam0'] = 0.0
+        case['beta'] = rng.choice([0.5, 1.0, 0.25, case['beta']])
+    case['call'] = call
+    return case
+
+
 def _slim(case):
     return {k: v for k, v in case.items() if k not in ('profile',)}
 
@@ -490,11 +672,29 @@ def run(rep):
     for case in _directed():
         _one(rep, case, 'directed', ('d', case['name']))
     n_random = 10000 if thorough else 400
-    per_nj = 40 if thorough else 8
+    n_variant = 2500 if thorough else 150
+    per_nj = 41 if thorough else 9          # 1 directed many-chromosome case + variant cases + plain random cases
     # reserve time for the n_jobs part (each change of n_jobs restarts the loky pool: 3-5 s)
     reserve = min((per_nj * 0.3 + 6) * 3, 0.4 * rep.budget_s)
-    pool = []
+    pool, vpool = [], []
     n_ret = n_edge = 0
+    # variant cases first (at most a quarter of the budget): argument forms, chroms order, duplicates, flush windows, boundary N / signal
+    n_exact_thr = n_at_thr = n_n_eq = 0
+    for k in range(n_variant):
+        if rep.left() < 0.75 * rep.budget_s:
+            rep.note('time budget: %d of %d variant cases evaluated' % (k, n_variant))
+            break
+        profile = 'scarce' if k % 2 == 0 else 'plenty'
+        case = _vary(rng, _random_case(rng, profile, seed=rep.seed * 100003 + 50000 + k))
+        viol, stats = _one(rep, case, 'variant-' + profile + ('+bigwig' if case['bigwig'] else ''), ('v', rep.seed, k))
+        n_ret += stats['returned']
+        n_exact_thr += stats['exact_thr']
+        n_at_thr += stats['at_thr'] > 0
+        n_n_eq += stats['n_eq'] > 0
+        if not viol and len(case['genome']) > 1 and k % 4 == 0:
+            vpool.append(case)
+    rep.note('variant part: threshold known exactly in %d bigWig cases (%d with an eligible tile AT the threshold), %d cases with an eligible '
+             'tile whose N fraction equals max_n_perc' % (n_exact_thr, n_at_thr, n_n_eq))
     for k in range(n_random):
         if rep.left() < reserve:
             rep.note('time budget: %d of %d random cases evaluated' % (k, n_random))
@@ -506,16 +706,16 @@ def run(rep):
         n_edge += stats['usable'] == 0 and stats['usable_hi'] > 0 and not viol
         if not any(f.startswith('raised') or f == 'gc-bin-index-out-of-range' for f, _ in viol) and len(case['genome']) > 1:
             pool.append(case)
-    rep.note('%d background loci returned and checked in the random part' % n_ret)
+    rep.note('%d background loci returned and checked in the variant + random parts' % n_ret)
     rep.note('observation, not asserted: in %d cases every input locus with N fraction == max_n_perc (e.g. max_n_perc = 0) was dropped by '
              'the strict `<` of the input filter while tiles are kept with `<=`; "usable" is read two-sidedly so this passes' % n_edge)
     for nj in (2, 3, 4):
         done = 0
-        for case in pool[(nj - 2)::3]:
+        for case in [_many_chroms(nj == 3)] + vpool[(nj - 2)::3][:per_nj // 3] + pool[(nj - 2)::3]:
             if done >= per_nj or rep.out_of_time():
                 break
             c = dict(case, n_jobs=[nj])
-            _one(rep, c, 'n_jobs=%d' % nj, ('nj', nj, case['seed']), parts=('njobs',))
+            _one(rep, c, 'n_jobs=%d' % nj, ('nj', nj, case.get('seed', case.get('name'))), parts=('njobs',))
             done += 1
 
 
